@@ -501,6 +501,8 @@ fn k_drop_forgotten_iterators() {
     core::mem::forget(b);
 }
 
+// (a drop-ledger harness for `splice` with an inexact size_hint exceeded the CBMC budget (> 10 GB) and was removed)
+
 /// zero-sized elements with destructors
 pub static mut ZDROPS: usize = 0;
 pub struct Z;
